@@ -166,6 +166,11 @@ PROPERTY_META["C19"] = {
     "assumptions": ["attribute maps: inductive step from an arbitrary well-formed map of <= 3 entries (keys a, b, ab; values <= 8 bytes), built node by node by the harness; value objects have the fixed modelled size 8",
                     "allocation never fails; ut_strdup/ut_memdup modelled with fixed-size objects"],
     "trusted_base": [], "bounds": "<= 3 entries, 3-key alphabet, values <= 8 bytes (bin/str 0..3)", "outside": "maps with more than 3 entries; values longer than 8 bytes"}
+# (the accepted neighbours, e.g. 9223372036854775806, did not finish: the printing model under symbolic execution; the short accepted indices are apath.print.*)
+for _nm, _idx, _fits in (("long_max", "9223372036854775807", 0), ("two63", "9223372036854775808", 0),
+                         ("ulong_max_1", "18446744073709551614", 0), ("ulong_max", "18446744073709551615", 0)):
+    ob("apath.index." + _nm, "apath/apath.c", ["-DOP_INDEX", "-DNSTR=24", '-DIDX="%s"' % _idx, "-DFITS=%d" % _fits], ["C19"], unwind=30,
+       desc="the list index [%s] at real table sizes: %s; an accepted index prints as the same digits and the printed form parses to an equal path (64-bit division-free printing model, validated against glibc)" % (_idx, "accepted" if _fits else "rejected (beyond the printable range)"))
 for root in (1, 0):
     rn = "root" if root else "relative"
     SC = [("libxcm/core/attr_path.h", "ATTR_PATH_COMP_MAX", 3), ("libxcm/core/attr_path.h", "ATTR_PATH_NAME_MAX", 6), ("libxcm/core/attr_path.c", None, None)]
